@@ -367,10 +367,37 @@ def load_corpus(cs):
 
 # ---------------------------------------------------------------------------------------------------
 
+def balanced(binary, lines, shards=16):
+    """hv.run_lines cuts the list into contiguous shards; long lines (64 KiB - 1 MiB frames) come in runs, so deal the
+    lines out by decreasing size first and undo the permutation afterwards"""
+    n = len(lines)
+    if n < 400:
+        return hv.run_lines(binary, lines, shards=shards)
+    order = sorted(range(n), key=lambda i: -len(lines[i]))
+    per = (n + shards - 1) // shards
+    groups = [[] for _ in range(shards)]
+    k = 0
+    for i in order:
+        while len(groups[k % shards]) >= per:
+            k += 1
+        groups[k % shards].append(i)
+        k += 1
+    perm = [i for g in groups for i in g]
+    out = hv.run_lines(binary, [lines[i] for i in perm], shards=shards)
+    res = [None] * n
+    for i, o in zip(perm, out):
+        res[i] = o
+    return res
+
+
+def model_run(lines):
+    return balanced(hv.MODEL_BIN, lines)
+
+
 def impl_limited(lines):
     """implementation runner under an address-space limit"""
     binary = "/bin/sh -c 'ulimit -v %d; exec %s'" % (AS_LIMIT_KB, hv.IMPL_BIN)
-    return hv.run_lines(binary, lines)
+    return balanced(binary, lines)
 
 
 def split_tail(s, key):
@@ -400,7 +427,7 @@ def run(ctx):
 
     # ---------------- encode ----------------
     lines = [l for l, _ in cs.enc]
-    m = ctx.model(lines)
+    m = model_run(lines)
     im = impl_limited(lines)
     ctx.evaluations += len(lines)
     roundtrip = []
@@ -451,13 +478,14 @@ def run(ctx):
     # ---------------- decode ----------------
     alldec = cs.dec + roundtrip
     lines = [l for l, _ in alldec]
-    m = ctx.model(lines)
+    m = model_run(lines)
     im = impl_limited(lines)
     ctx.evaluations += len(lines)
-    # model's flat reference parser on the concatenation, on the enumerated header stream (proved equal; checks extraction)
+    # model's flat reference parser on the concatenation, on the enumerated header stream (proved equal; checks extraction).
+    # parse_spec indexes the key with unary naturals (quadratic): short inputs only
     flat_idx = [i for i, (_, meta) in enumerate(alldec) if meta['tag'].startswith(('hdr-', 'split-', 'corpus', 'replay'))
-                and 0 not in py_chunk_sizes(meta['plan'], len(meta['data']))]
-    flat = ctx.model(['c10_spec ' + hx(alldec[i][1]['data']) for i in flat_idx])
+                and len(meta['data']) <= 1500 and 0 not in py_chunk_sizes(meta['plan'], len(meta['data']))]
+    flat = model_run(['c10_spec ' + hx(alldec[i][1]['data']) for i in flat_idx])
     flat_of = dict(zip(flat_idx, flat))
     nsample = 0
     for i, ((line, meta), a, b) in enumerate(zip(alldec, m, im)):
@@ -548,7 +576,7 @@ def run(ctx):
             lines_m.append('c10_msg %d %s' % (int(is_text), hx(payload)))
             lines_i.append('c10_msg %d %s' % (op, hx(payload)))
         metas.append((kind, op, payload))
-    m = ctx.model(lines_m)
+    m = model_run(lines_m)
     im = impl_limited(lines_i)
     ctx.evaluations += len(lines_m)
     for (kind, op, payload), a, b, lm in zip(metas, m, im, lines_m):
